@@ -12,9 +12,10 @@ deriving DecidableEq, Repr, Inhabited
 
 /-- `models.ClientConfig` as far as the handshake reads it.  `ExpiresAt` is the Go
 `*time.Time` (ns); `deleted` = the config is gone from storage (`GetClientConfig`
-fails); `secret` = what is stored for the client's secret key (see `SecState`). -/
+fails); `UserID` = the user the client was claimed by / bound to ("" = anonymous, unbound); `secret` = what is stored for the client's secret key (see `SecState`). -/
 structure ClientConfigT where
   ExpiresAt : Option Nat := none
+  UserID : String := ""
   deleted : Bool := false
   secret : SecState := .usable
 deriving DecidableEq, Repr, Inhabited
